@@ -26,3 +26,15 @@ package builtin
 //@ func min_max(args, kwargs, name) (r, err)
 //@   modifies *
 //@   ensures fail: nextFailed() ==> err == lasterr[0]
+
+// ---- chr / ord (C14) ----
+
+//@ func builtin_ord(self, obj) (r, err)
+//@   requires nn: obj != nil
+//@   modifies *
+//@   ensures multi: is(obj, py.String) && nrunes(obj.(py.String)) == 1 && nbytes(obj.(py.String)) > 1 ==> err == nil && is(r, py.Int)
+//@   ensures many: is(obj, py.String) && nrunes(obj.(py.String)) != 1 ==> raisesExc(err, py.TypeError)
+
+//@ func builtin_chr(self, args) (r, err)
+//@   modifies *
+//@   ensures str: err == nil ==> is(r, py.String)
